@@ -11,8 +11,9 @@ and all of them receive the same session."
 * §1 **`Fine g evs`**: the judgment on an event sequence, read from left to right with the ghost updated on the way: every
   `.save k r` under an id that has been replaced (by `t`) is again a reference to `t` — so `k` never holds a full session
   again and never points anywhere else. `fine_same_target` turns it into a statement about positions in the sequence.
-* §2 **`RI s g`**, the store/ghost invariant: a stored reference record `k ⟶ t` is in `repl` and `t` has the root of `k`;
-  a full record lies under an id that was not replaced; the ghost only knows minted ids.
+* §2 **`RI s g`**, the store/ghost invariant: a stored reference record `k ⟶ t` is in `repl`; a full record lies under an
+  id that was not replaced; a replacement has the root of the id it replaced; the ghost only knows minted ids. `RS` is
+  its event-by-event part (`RS.ev`, `RS.fold`), used at crash points inside an operation together with `fold4_prefix`.
 * §3 the model functions on the ghost, fault-free from an `Inv` state: `RI.ign` / `RI.rq` (operations that only re-write
   records or write full records under ids that were not replaced), `delSt_g4`, `createNew_g4`, `regenerate_g4` (the one
   place where the ghost changes), `follow_g4`, `start_g4`, `hlogin_g4`.
@@ -195,23 +196,42 @@ theorem fine_same_target {g : G4} {tr : List Ev} (hf : Fine g tr) {i j : Nat} {k
 
 /-! ## 2. the store/ghost invariant -/
 
+/-- the part of the invariant that can be followed event by event: a stored reference record `k ⟶ t` is recorded
+(`repl k = t`); a full record lies under an id that has not been replaced. -/
+structure RS (st : List (ID × Rec)) (g : G4) : Prop where
+  ref : ∀ k t, refAt st k = some (some t) → lookup k g.repl = some t
+  full : ∀ k, refAt st k = some none → lookup k g.repl = none
+
 /-- **the invariant relating the store and the ghost**:
-* `ref`: a stored reference record `k ⟶ t` is recorded (`repl k = t`), and `t` has the root (session number) of `k`;
+* `ref`: a stored reference record `k ⟶ t` is recorded (`repl k = t`);
 * `full`: a full record lies under an id that has not been replaced;
+* `rroot`: a replacement has the root (session number) of the id it replaced (a fact about the ghost alone);
 * `mrepl`/`mroot`: the ghost only knows minted ids (so the next id to be minted is new to it). -/
 structure RI (s : State) (g : G4) : Prop where
-  ref : ∀ k t, refAt s.store k = some (some t) → lookup k g.repl = some t ∧ g.rootOf t = g.rootOf k
+  ref : ∀ k t, refAt s.store k = some (some t) → lookup k g.repl = some t
   full : ∀ k, refAt s.store k = some none → lookup k g.repl = none
+  rroot : ∀ k t, (k, t) ∈ g.repl → g.rootOf t = g.rootOf k
   mrepl : ∀ k t, (k, t) ∈ g.repl → Minted s.nextId k ∧ Minted s.nextId t
   mroot : ∀ k v, (k, v) ∈ g.root → Minted s.nextId k ∧ Minted s.nextId v
 
+theorem RI.rs {s : State} {g : G4} (hs : RI s g) : RS s.store g := ⟨hs.ref, hs.full⟩
+
+/-- a stored reference `k ⟶ t`: `t` has the root of `k`. -/
+theorem RI.ref_root {s : State} {g : G4} (hs : RI s g) {k t : ID} (h : refAt s.store k = some (some t)) :
+    g.rootOf t = g.rootOf k := hs.rroot k t (Sx.lookup_some_mem (hs.ref k t h))
+
 theorem ri_init : RI ({} : State) ({} : G4) :=
   ⟨by intro k t h; simp [refAt, lookup] at h, by intro k h; simp [refAt, lookup] at h,
-   by intro k t h; simp at h, by intro k v h; simp at h⟩
+   by intro k t h; simp at h, by intro k t h; simp at h, by intro k v h; simp at h⟩
 
 /-- the invariant only reads the store and the id counter. -/
 theorem RI.congr {s s' : State} {g : G4} (hs : RI s g) (h1 : s'.store = s.store) (h3 : s'.nextId = s.nextId) : RI s' g :=
-  ⟨by rw [h1]; exact hs.ref, by rw [h1]; exact hs.full, by rw [h3]; exact hs.mrepl, by rw [h3]; exact hs.mroot⟩
+  ⟨by rw [h1]; exact hs.ref, by rw [h1]; exact hs.full, hs.rroot, by rw [h3]; exact hs.mrepl, by rw [h3]; exact hs.mroot⟩
+
+/-- the ghost part of the invariant with another store that agrees with the ghost. -/
+theorem RI.of_rs {s s' : State} {g : G4} (hs : RI s g) (hr : RS s'.store g) (hn : s.nextId ≤ s'.nextId) : RI s' g :=
+  ⟨hr.ref, hr.full, hs.rroot, fun k t h => ⟨(hs.mrepl k t h).1.mono hn, (hs.mrepl k t h).2.mono hn⟩,
+   fun k v h => ⟨(hs.mroot k v h).1.mono hn, (hs.mroot k v h).2.mono hn⟩⟩
 
 section fresh
 variable {s : State} {g : G4} (hs : RI s g) {n : Nat} (hn : s.nextId ≤ n)
@@ -244,7 +264,7 @@ theorem RI.frame {s s' : State} {g : G4} (hs : RI s g)
     (hst : ∀ k, refAt s'.store k = refAt s.store k ∨ refAt s'.store k = none ∨
       (refAt s'.store k = some none ∧ lookup k g.repl = none))
     (hn : s.nextId ≤ s'.nextId) : RI s' g := by
-  refine ⟨?_, ?_, ?_, ?_⟩
+  refine ⟨?_, ?_, hs.rroot, ?_, ?_⟩
   · intro k t h
     rcases hst k with h1 | h1 | ⟨h1, _⟩
     · rw [h1] at h; exact hs.ref k t h
@@ -257,6 +277,179 @@ theorem RI.frame {s s' : State} {g : G4} (hs : RI s g)
     · exact h0
   · intro k t h; exact ⟨(hs.mrepl k t h).1.mono hn, (hs.mrepl k t h).2.mono hn⟩
   · intro k v h; exact ⟨(hs.mroot k v h).1.mono hn, (hs.mroot k v h).2.mono hn⟩
+
+/-! ### event by event (for crash points inside an operation) -/
+
+theorem refAt_applyMut_save (st : List (ID × Rec)) (k k' : ID) (r : Rec) :
+    refAt (applyMut st (.save k r)) k' = if k = k' then some r.ref else refAt st k' := by
+  show refAt (insert k r st) k' = _
+  by_cases h : k = k'
+  · subst h; rw [refAt_insert_self, if_pos rfl]
+  · rw [refAt_insert_ne r st (fun e => h e.symm), if_neg h]
+
+theorem refAt_applyMut_del (st : List (ID × Rec)) (k k' : ID) :
+    refAt (applyMut st (.del k)) k' = if k = k' then none else refAt st k' := by
+  show refAt (erase k st) k' = _
+  unfold refAt
+  by_cases h : k = k'
+  · subst h; rw [Loc.lookup_erase_self, if_pos rfl]; rfl
+  · rw [Loc.lookup_erase_ne h, if_neg h]
+
+/-- **one store mutation** that respects the ghost keeps store and ghost in agreement. -/
+theorem RS.ev {st : List (ID × Rec)} {g : G4} (h : RS st g) {e : Ev} (hf : evFine g e) : RS (applyMut st e) (g4Ev g e) := by
+  cases e with
+  | save k r =>
+    cases hr : r.ref with
+    | none =>
+      have hg : g4Ev g (.save k r) = g := by rw [g4Ev_save, hr]; rfl
+      rw [hg]
+      refine ⟨?_, ?_⟩
+      · intro k' t hk
+        rw [refAt_applyMut_save] at hk
+        split at hk
+        · rw [hr] at hk; cases hk
+        · exact h.ref k' t hk
+      · intro k' hk
+        rw [refAt_applyMut_save] at hk
+        split at hk
+        · rename_i e; subst e
+          cases hl : lookup k g.repl with
+          | none => rfl
+          | some t => have := hf t hl; rw [hr] at this; cases this
+        · exact h.full k' hk
+    | some t =>
+      have hafter := repl_after_save hf hr
+      refine ⟨?_, ?_⟩
+      · intro k' t' hk
+        rw [refAt_applyMut_save] at hk
+        split at hk
+        · rename_i e; subst e
+          rw [hr] at hk; simp only [Option.some.injEq] at hk; subst hk
+          exact hafter
+        · exact repl_mono g _ (h.ref k' t' hk)
+      · intro k' hk
+        rw [refAt_applyMut_save] at hk
+        split at hk
+        · rw [hr] at hk; cases hk
+        · rename_i hne
+          have := h.full k' hk
+          rw [g4Ev_save, hr]
+          by_cases hin : (lookup k g.repl).isSome = true
+          · rw [g4Save_in t hin]; exact this
+          · have hnone : lookup k g.repl = none := by simpa using hin
+            rw [g4Save_new t hnone, link_repl_ne g t hne]; exact this
+  | del k =>
+    refine ⟨?_, ?_⟩
+    · intro k' t hk
+      rw [refAt_applyMut_del] at hk
+      split at hk
+      · cases hk
+      · exact h.ref k' t hk
+    · intro k' hk
+      rw [refAt_applyMut_del] at hk
+      split at hk
+      · cases hk
+      · exact h.full k' hk
+  | _ => exact h
+
+theorem RS.fold {st : List (ID × Rec)} {g : G4} (h : RS st g) {evs : List Ev} (hf : Fine g evs) :
+    RS (evs.foldl applyMut st) (evs.foldl g4Ev g) := by
+  induction evs generalizing st g with
+  | nil => exact h
+  | cons e r ih => exact ih (h.ev hf.1) hf.2
+
+/-- a sequence that is `Fine` stays so when events the ghost does not read are dropped; here: a prefix. -/
+theorem fine_take {g : G4} {evs : List Ev} (hf : Fine g evs) (k : Nat) : Fine g (evs.take k) := by
+  have := hf
+  rw [← List.take_append_drop k evs, fine_append] at this
+  exact this.1
+
+theorem g4Ev_nomut {g : G4} {e : Ev} (h : isMut e = false) : g4Ev g e = g := by
+  cases e <;> first | rfl | simp [isMut] at h
+
+theorem evFine_nomut {g : G4} {e : Ev} (h : isMut e = false) : evFine g e := by
+  cases e <;> first | trivial | simp [isMut] at h
+
+theorem fold4_muts (g : G4) (evs : List Ev) : (evs.filter isMut).foldl g4Ev g = evs.foldl g4Ev g := by
+  induction evs generalizing g with
+  | nil => rfl
+  | cons e r ih =>
+    cases hc : isMut e with
+    | false => simp only [List.filter_cons, hc, Bool.false_eq_true, if_false, List.foldl_cons, g4Ev_nomut hc, ih]
+    | true => simp only [List.filter_cons, hc, if_true, List.foldl_cons, ih]
+
+theorem fine_muts (g : G4) (evs : List Ev) : Fine g (evs.filter isMut) ↔ Fine g evs := by
+  induction evs generalizing g with
+  | nil => rfl
+  | cons e r ih =>
+    cases hc : isMut e with
+    | false =>
+      simp only [List.filter_cons, hc, Bool.false_eq_true, if_false, Fine, g4Ev_nomut hc, ih]
+      exact ⟨fun h => ⟨evFine_nomut hc, h⟩, fun h => h.2⟩
+    | true => simp only [List.filter_cons, hc, if_true, Fine, ih]
+
+theorem link_repl_length (g : G4) (k t : ID) : (g.link k t).repl.length = g.repl.length + 1 := rfl
+
+/-- one event leaves the ghost alone or records one new replacement. -/
+theorem g4Ev_cases (g : G4) (e : Ev) : g4Ev g e = g ∨ ∃ k t, g4Ev g e = g.link k t := by
+  cases e with
+  | save k r =>
+    rw [g4Ev_save]
+    cases hr : r.ref with
+    | none => exact Or.inl rfl
+    | some t =>
+      by_cases hin : (lookup k g.repl).isSome = true
+      · exact Or.inl (g4Save_in t hin)
+      · exact Or.inr ⟨k, t, g4Save_new t (by simpa using hin)⟩
+  | _ => exact Or.inl rfl
+
+theorem repl_length_fold (g : G4) (evs : List Ev) : g.repl.length ≤ (evs.foldl g4Ev g).repl.length := by
+  induction evs generalizing g with
+  | nil => exact Nat.le_refl _
+  | cons e r ih =>
+    simp only [List.foldl_cons]
+    rcases g4Ev_cases g e with h | ⟨k, t, h⟩
+    · rw [h]; exact ih g
+    · have := ih (g4Ev g e); rw [h] at this ⊢; rw [link_repl_length] at this; omega
+
+/-- if a sequence does not make the ghost grow, none of its prefixes changes it. -/
+theorem fold4_stays {g : G4} {l : List Ev} (h : (l.foldl g4Ev g).repl.length ≤ g.repl.length) (k : Nat) :
+    (l.take k).foldl g4Ev g = g := by
+  induction l generalizing g k with
+  | nil => simp
+  | cons e r ih =>
+    cases k with
+    | zero => rfl
+    | succ k =>
+      simp only [List.take_succ_cons, List.foldl_cons] at h ⊢
+      rcases g4Ev_cases g e with he | ⟨k', t, he⟩
+      · rw [he] at h ⊢; exact ih h k
+      · have := repl_length_fold (g4Ev g e) r
+        rw [he, link_repl_length] at this
+        rw [he] at h
+        omega
+
+/-- **prefixes**: if the whole sequence records at most one replacement, every prefix leaves the ghost as it was or
+as the whole sequence leaves it. -/
+theorem fold4_prefix {g : G4} {l : List Ev} (h : (l.foldl g4Ev g).repl.length ≤ g.repl.length + 1) (k : Nat) :
+    (l.take k).foldl g4Ev g = g ∨ (l.take k).foldl g4Ev g = l.foldl g4Ev g := by
+  induction l generalizing g k with
+  | nil => left; simp
+  | cons e r ih =>
+    cases k with
+    | zero => left; rfl
+    | succ k =>
+      simp only [List.take_succ_cons, List.foldl_cons] at h ⊢
+      rcases g4Ev_cases g e with he | ⟨k', t, he⟩
+      · rw [he] at h ⊢; exact ih h k
+      · right
+        have hle : (r.foldl g4Ev (g4Ev g e)).repl.length ≤ (g4Ev g e).repl.length := by
+          have h2 : (g4Ev g e).repl.length = g.repl.length + 1 := by rw [he]; rfl
+          omega
+        rw [fold4_stays hle k]
+        have := fold4_stays hle r.length
+        rw [List.take_length] at this
+        exact this.symm
 
 /-! ## 3. the model functions on the ghost -/
 
@@ -280,7 +473,7 @@ theorem RI.ign_ev {s : State} {g : G4} (hs : RI s g) {e : Ev} (h : QEv (FullX g)
         intro t ht; rw [hs.full k h] at ht; cases ht
       | some t =>
         rw [hr] at h
-        obtain ⟨h1, _⟩ := hs.ref k t h
+        have h1 := hs.ref k t h
         refine ⟨?_, by rw [g4Ev_save, hr]; exact g4Save_in t (by rw [h1]; rfl)⟩
         intro t' ht'; rw [h1] at ht'
         simp only [Option.some.injEq] at ht'
@@ -361,7 +554,7 @@ theorem RI.refIgn_of_store {s : State} {g : G4} (hs : RI s g) {k : ID} {ρ : Opt
     refIgn g k ρ := by
   cases ρ with
   | none => exact hs.full k h
-  | some t => exact (hs.ref k t h).1
+  | some t => exact hs.ref k t h
 
 /-- flushes of cache entries whose objects agree with the ghost are ignored by it. -/
 theorem flush_ign {g : G4} {cfg : Cfg} {c : List (ID × Nat)} {obj : Nat → Sess} {evs : List Ev}
@@ -496,20 +689,18 @@ theorem regenerate_g4 (cfg : Cfg) (s : State) (h : Nat) (hnf : NoFail s) (hi : I
       intro y hy; rw [rootOf_link4, if_neg (fun e => hy e.symm)]
     have hrootn : (g.link (s.obj h).id (.gen s.nextId)).rootOf (.gen s.nextId) = g.rootOf (s.obj h).id := by
       rw [rootOf_link4, if_pos rfl]
-    refine ⟨?_, ?_, ?_, ?_⟩
+    refine ⟨?_, ?_, ?_, ?_, ?_⟩
     · intro k t hkt
       by_cases hk1 : k = (s.obj h).id
       · subst hk1
         rw [hso] at hkt
         simp only [Option.some.injEq] at hkt
         subst hkt
-        exact ⟨link_repl_self g _ _, by rw [hrootn, hroot _ hne]⟩
+        exact link_repl_self g _ _
       · by_cases hk2 : k = .gen s.nextId
         · subst hk2; rw [hsn] at hkt; simp at hkt
         · rw [hoth k hk1 hk2] at hkt
-          obtain ⟨h1, h2⟩ := hs.ref k t hkt
-          have htn : t ≠ .gen s.nextId := (hrefs k t hkt).ne_gen
-          exact ⟨by rw [link_repl_ne g _ (fun e => hk1 e.symm)]; exact h1, by rw [hroot t htn, hroot k hk2]; exact h2⟩
+          rw [link_repl_ne g _ (fun e => hk1 e.symm)]; exact hs.ref k t hkt
     · intro k hkf
       by_cases hk1 : k = (s.obj h).id
       · subst hk1; rw [hso] at hkf; simp at hkf
@@ -517,6 +708,14 @@ theorem regenerate_g4 (cfg : Cfg) (s : State) (h : Nat) (hnf : NoFail s) (hi : I
         by_cases hk2 : k = .gen s.nextId
         · subst hk2; exact hnew
         · rw [hoth k hk1 hk2] at hkf; exact hs.full k hkf
+    · intro k t hm
+      have : (k, t) ∈ ((s.obj h).id, ID.gen s.nextId) :: g.repl := hm
+      rcases List.mem_cons.1 this with e | e
+      · obtain ⟨rfl, rfl⟩ := Prod.mk.inj e
+        rw [hrootn, hroot _ hne]
+      · have hkn : k ≠ .gen s.nextId := (hs.mrepl k t e).1.ne_gen
+        have htn : t ≠ .gen s.nextId := (hs.mrepl k t e).2.ne_gen
+        rw [hroot t htn, hroot k hkn]; exact hs.rroot k t e
     · intro k t hm
       rw [d.fr.2.1]
       have : (k, t) ∈ ((s.obj h).id, ID.gen s.nextId) :: g.repl := hm
@@ -561,7 +760,7 @@ theorem follow_g4 (cfg : Cfg) (n : Nat) (s : State) (h : Nat) (hnf : NoFail s) (
         obtain ⟨r0, hl, hess⟩ := hc
         have : refAt s.store (s.obj h).id = some (some tgt) := by
           rw [refAt_of_lookup hl, ← Glob.ess_ref hess, enc_ref, href]
-        exact (hs.ref _ tgt this).2
+        exact hs.ref_root this
       have gd := cacheGet_delta cfg s tgt hnf hi
       generalize hg : cacheGet cfg s tgt = out at gd
       obtain ⟨s1, res, e1⟩ := out
